@@ -1002,3 +1002,11 @@ Proof.
   - destruct (IH _ _ Hf) as [pre [post [E1 [E2 E3]]]]. exists (h :: pre), post. subst. simpl.
     repeat split; auto. intros x [Ex|Hx]; subst; auto.
 Qed.
+
+(* GetBasesInMRO (which has no duplicate check in either tree) accepts a repeated base *)
+Lemma pytd_agree_refuted_lemma :
+  exists H done bases,
+    wf_table H = true /\ no_dup_bases H = true /\ mros_c H = TableOk done /\
+    wf_bases (length H) bases = true /\
+    class_mro_c done (length H) bases = Reject /\ get_bases_in_mro H bases = Ok [1; 0].
+Proof. exists [[]; [0]], [[0]; [1; 0]], [1; 1]. vm_compute. repeat split; reflexivity. Qed.
